@@ -1462,3 +1462,42 @@ func drainsParam(e *Env, callee *an.Func, idx int) bool {
 	})
 	return ok
 }
+
+// resolveAnywhere is an.ResolveLocal for callers that do not know the enclosing function: a single-definition local
+// stands for its defining expression; the body is found from the identifier's position.
+func resolveAnywhere(e *Env, info *types.Info, x ast.Expr) ast.Expr {
+	id, ok := an.Unparen(x).(*ast.Ident)
+	if !ok {
+		return x
+	}
+	for _, fn := range e.Ix.Funcs() {
+		if fn.Pkg.Info != info || fn.Body() == nil {
+			continue
+		}
+		if fn.Decl.Pos() <= id.Pos() && id.End() <= fn.Decl.End() {
+			return an.ResolveLocal(info, fn.Body(), x)
+		}
+	}
+	return x
+}
+
+// errCopies: the variables an error value may be copied into inside body (`w = v`, `w := v`, transitively), including v.
+func errCopies(info *types.Info, body ast.Node, v types.Object) map[types.Object]bool {
+	set := map[types.Object]bool{v: true}
+	for changed := true; changed; {
+		changed = false
+		ast.Inspect(body, func(m ast.Node) bool {
+			if as, ok := m.(*ast.AssignStmt); ok && len(as.Lhs) == len(as.Rhs) {
+				for i := range as.Lhs {
+					l, r := an.ObjOf(info, as.Lhs[i]), an.ObjOf(info, as.Rhs[i])
+					if l != nil && r != nil && set[r] && !set[l] {
+						set[l] = true
+						changed = true
+					}
+				}
+			}
+			return true
+		})
+	}
+	return set
+}
